@@ -44,6 +44,9 @@
    * C08_tree_stack_bound: in every configuration reached without unwinding the task stack has no duplicates
      and len(tasks) <= number of futures created (top_next).  C08_tree_guard_silent_while_few_futures: hence
      no_unwind holds outright as long as top_next <= MAX_TASK_STACK_SIZE.
+   * C08_stree_step_never_raises_already_computed / C08_stree_never_raises_already_computed /
+     C08_stree_no_unwind_if_guard_silent: the first two points for [stree] programs (invariant CI of
+     proofs/MachineC01S.v); no stack bound there.
    Not covered there: what happens AFTER the guard fired in a tree program (the RuntimeError escapes to the top:
    tree programs have no Sync frame to catch it; C08_clean_after_outcome_U applies once guard_unwind_only is
    known for the rest of the run, which is not proved here).
@@ -51,14 +54,16 @@
    NOT proved:
    * anything about runs in which FutureIsAlreadyComputed (E_ALREADY, raised by _queue_exit in
      MResume / MRun) unwinds: MUnwind pops _continue_with_task frames without restoring active_task and
-     leaves the task stack as it is, the invariant says nothing there.  For TREE programs under a pointwise
-     service this case is now shown UNREACHABLE (see the last block); for programs with synchronous calls or
-     stored handles it stays open;
+     leaves the task stack as it is, the invariant says nothing there.  For TREE programs, and for STREE
+     programs (tree + synchronous calls of fresh tasks), under a pointwise service this case is now shown
+     UNREACHABLE before the first firing of the guard (see the block above); for programs with stored handles,
+     and for stree runs after a caught guard error, it stays open;
    * runs that do not reach MDone within the fuel;
    * "the next computation behaves as on a fresh scheduler" as an equality of traces between the second
      computation of a history and the same computation on st0 (here: the scheduler-owned fields tasks / sb /
      active are those of st0; heap, batch registry, scoped values and the id counter are user state). *)
-From Asynq Require Import Machine Seq proofs.MachineC08 proofs.MachineC08U proofs.MachineC01 proofs.MachineNoUnwind.
+From Asynq Require Import Machine Seq proofs.MachineC08 proofs.MachineC08U proofs.MachineC01 proofs.MachineC01S
+     proofs.MachineNoUnwind.
 
 Theorem C08_active_is_running : forall P h s n t p,
   tasks s = [] -> no_unwind P n (start h s) ->
@@ -242,3 +247,30 @@ Theorem C08_tree_guard_silent_while_few_futures : forall P p n,
   no_unwind P n (start h s1).
 Proof. exact (fun P p n HP Ht => tree_guard_silent_while_few_futures P HP p Ht n). Qed.
 Print Assumptions C08_tree_guard_silent_while_few_futures.
+
+(* ---- the same for tree programs with synchronous calls ---- *)
+Theorem C08_stree_step_never_raises_already_computed : forall P res spec c,
+  CI res spec c -> is_unwind (c_mode c) = false -> c_mode (step P c) <> MUnwind E_ALREADY.
+Proof. exact stree_step_not_already. Qed.
+Print Assumptions C08_stree_step_never_raises_already_computed.
+
+Theorem C08_stree_never_raises_already_computed : forall P p n e,
+  pointwise P -> stree p ->
+  let h := fst (create [] (FTask p) (st0 P)) in
+  let s1 := snd (create [] (FTask p) (st0 P)) in
+  (forall k, (k < n)%nat -> is_unwind (c_mode (run P k (start h s1))) = false) ->
+  c_mode (run P n (start h s1)) = MUnwind e ->
+  e = E_RUNTIME /\
+  exists m, n = S m /\ c_mode (run P m (start h s1)) = MExecLoop /\
+            (p_maxstack P < Z.of_nat (length (tasks (c_st (run P m (start h s1))))))%Z /\
+            guard_fires P (run P m (start h s1)) = true.
+Proof. exact (fun P p n e HP Ht => stree_unwind_is_guard P HP p Ht n e). Qed.
+Print Assumptions C08_stree_never_raises_already_computed.
+
+Theorem C08_stree_no_unwind_if_guard_silent : forall P p n,
+  pointwise P -> stree p ->
+  let h := fst (create [] (FTask p) (st0 P)) in
+  let s1 := snd (create [] (FTask p) (st0 P)) in
+  (forall k, (k < n)%nat -> guard_fires P (run P k (start h s1)) = false) -> no_unwind P n (start h s1).
+Proof. exact (fun P p n HP Ht => stree_no_unwind_iff_guard_silent P HP p Ht n). Qed.
+Print Assumptions C08_stree_no_unwind_if_guard_silent.
